@@ -7,6 +7,7 @@ import (
 	"go/printer"
 	"go/token"
 	"path/filepath"
+	"regexp"
 	"strings"
 	"sync"
 
@@ -240,6 +241,8 @@ type c15Case struct {
 	status string
 }
 
+var c15WordR = regexp.MustCompile(`\bR\b`)
+
 const c15Header = `package main
 
 import slice
@@ -271,6 +274,12 @@ func (c *c15Case) decls() string {
 		fmt.Fprintf(&b, "type Uk%d =\n| Ck%d of %s\n| Dk%d\n\n", k, k, c.text, k)
 		fmt.Fprintf(&b, "let pk%d (x:%s) =\n  0\n\n", k, c.text)
 		fmt.Fprintf(&b, "let wk%d () =\n  slice.New<%s> ()\n\n", k, c.text)
+	}
+	if c.t.k != "unit" && c15WordR.MatchString(c.text) {
+		// the same type with the user record replaced by a record defined LATER in the same
+		// `type ... and ...` group (forward reference), as record field and union payload
+		fwd := c15WordR.ReplaceAllString(c.text, fmt.Sprintf("LGk%d", k))
+		fmt.Fprintf(&b, "type RGk%d = {Fkg%d: %s; ZGk%d: int}\nand UGk%d =\n| Ckg%d of %s\n| DGk%d\nand LGk%d = {XGk%d: int}\n\n", k, k, fwd, k, k, k, fwd, k, k, k)
 	}
 	fmt.Fprintf(&b, "package_info pkx%d =\n  let Gk%d: ()->%s\n\n", k, k, c.text1)
 	fmt.Fprintf(&b, "let qk%d () =\n  pkx%d.Gk%d ()\n\n", k, k, k)
@@ -457,6 +466,20 @@ func runC15(r *core.Run, tier string) {
 			check("ctorparam", c.want)
 			check("targ", c.want)
 			check("targ-result", normGo("[]"+c.t.golang()))
+		}
+		if c.t.k != "unit" && c15WordR.MatchString(c.text) {
+			// forward-reference positions: keys field:g<k> / payload:g<k>
+			fw := c15WordR.ReplaceAllString(c.want, fmt.Sprintf("LGk%d", c.id))
+			for _, pos := range []string{"field", "payload"} {
+				placements["fwd-"+pos]++
+				r.Eval(c.text+"@fwd-"+pos, true)
+				got, ok := c.got[pos+":g"+k]
+				if !ok {
+					r.Violate("type-position-missing:fwd-"+pos+":"+c.text, fmt.Sprintf("type expression `%s` with a forward reference as %s: no such declaration in the emitted Go", c.text, pos), files)
+				} else if got != fw {
+					r.Violate("type-mapping:fwd-"+pos+":"+c.text, fmt.Sprintf("type expression `%s` (R defined later in the same type group) as %s is emitted as `%s`, the documented grammar gives `%s`", c.text, pos, got, fw), files)
+				}
+			}
 		}
 		check("pkginfo", c.want)
 	}
